@@ -7,6 +7,12 @@
 #include <errno.h>
 #include <fcntl.h>
 #include <locale.h>
+#include <pwd.h>
+#include <grp.h>
+#include <dirent.h>
+#include <search.h>
+#include <math.h>
+#include <time.h>
 #include <set>
 #include <signal.h>
 #include <unistd.h>
@@ -453,11 +459,13 @@ const char *g_libc_static_names[] = {"asctime", "ctime", "localtime", "gmtime", 
                                      "ttyname", "getlogin", "l64a",
                                      // multibyte -> wide conversion through libc's hidden conversion state (a partial character
                                      // left by one call is continued by the next, whichever thread makes it)
-                                     "mbtowc/mblen (hidden conversion state)", "mbrtowc/mbrlen/mbsrtowcs/mbsnrtowcs(NULL state)", nullptr};
+                                     "mbtowc/mblen (hidden conversion state)", "mbrtowc/mbrlen/mbsrtowcs/mbsnrtowcs(NULL state)",
+                                     // 32.. : more functions POSIX lists as "need not be thread-safe" because they return or keep static data
+                                     "localeconv", "getpwnam", "getpwuid", "getgrnam", "getgrgid", "readdir", "hsearch", "ptsname", "lgamma (signgam)", "getdate", nullptr};
 static void libc_probe(int idx) {
     Task *t = t_self;
     if (t && t->op) {
-        t->res[t->cur_op].libc_static |= 1u << idx;
+        t->res[t->cur_op].libc_static |= 1ull << idx;
         sim_log(100, (uint64_t)idx, 0);
     }
     on_event();
@@ -920,6 +928,17 @@ char *__wrap_inet_ntoa(struct in_addr a) { libc_probe(26); char *r = inet_ntoa(a
 char *__wrap_ttyname(int fd) { libc_probe(27); char *r = ttyname(fd); on_event(); return r; }
 char *__wrap_getlogin(void) { libc_probe(28); char *r = getlogin(); on_event(); return r; }
 char *__wrap_l64a(long v) { libc_probe(29); char *r = l64a(v); on_event(); return r; }
+
+struct lconv *__wrap_localeconv(void) { libc_probe(32); struct lconv *r = localeconv(); on_event(); return r; }
+struct passwd *__wrap_getpwnam(const char *n) { libc_probe(33); struct passwd *r = getpwnam(n); on_event(); return r; }
+struct passwd *__wrap_getpwuid(uid_t u) { libc_probe(34); struct passwd *r = getpwuid(u); on_event(); return r; }
+struct group *__wrap_getgrnam(const char *n) { libc_probe(35); struct group *r = getgrnam(n); on_event(); return r; }
+struct group *__wrap_getgrgid(gid_t g) { libc_probe(36); struct group *r = getgrgid(g); on_event(); return r; }
+struct dirent *__wrap_readdir(DIR *d) { libc_probe(37); struct dirent *r = readdir(d); on_event(); return r; }
+ENTRY *__wrap_hsearch(ENTRY e, ACTION a) { libc_probe(38); ENTRY *r = hsearch(e, a); on_event(); return r; }
+char *__wrap_ptsname(int fd) { libc_probe(39); char *r = ptsname(fd); on_event(); return r; }
+double __wrap_lgamma(double x) { libc_probe(40); return lgamma(x); }
+struct tm *__wrap_getdate(const char *sx) { libc_probe(41); struct tm *r = getdate(sx); on_event(); return r; }
 
 // allocation through libc convenience functions is still "a dynamic allocation the library performs": counted,
 // failed on demand and tracked like malloc (C20)
